@@ -342,44 +342,46 @@ class Body:
             return ds[0]
         return None
 
+    @staticmethod
+    def _join(a, b):
+        a = list(a)
+        b = list(b)
+        while a and b and a[-1] == "&" and b[0] == "*":
+            a.pop()
+            b.pop(0)
+        return a + b
+
     def root_place(self, p, depth=0):
         """Follow reborrows/copies of single-assignment temporaries back to a root place.
-        Returns a place (local + projection) with derefs kept."""
-        if depth > 20:
-            return p
-        l = p[0]
-        if l <= self.argc and l != 0:
-            return p
+        Returns a place (local + projection); the pseudo projection "&" means "a reference to"
+        and "deref()" a smart-pointer deref call."""
+        l, projs = p[0], list(p[1])
+        if depth > 25:
+            return [l, projs]
+        if 0 < l <= self.argc:
+            return [l, projs]
         sd = self.single_def(l)
         if sd is None:
-            return p
+            return [l, projs]
         rv = sd[2]
         if isinstance(rv, Term):
             # smart-pointer deref: `*guard` lowers to Deref::deref(&guard) / DerefMut::deref_mut(&mut guard)
-            if (rv.callee.endswith("as std::ops::DerefMut>::deref_mut") or rv.callee.endswith("as std::ops::Deref>::deref")) \
-                    and rv.args and op_place(rv.args[0]) is not None and not p[1]:
+            if (rv.callee.endswith("as core::ops::deref::DerefMut>::deref_mut") or rv.callee.endswith("as core::ops::deref::Deref>::deref")) \
+                    and rv.args and op_place(rv.args[0]) is not None:
                 r = self.root_place(op_place(rv.args[0]), depth + 1)
-                return [r[0], [e for e in r[1] if e != "&"] + ["deref()"]]
-            return p
-        src = None
-        if rv[0] == "use":
-            src = op_place(rv[1])
-        elif rv[0] == "ref":
-            src = rv[2]
-            # &mut (*x) / &(*x) reborrow: the value equals x when projection is a single deref
-            if src[1] and src[1][-1] == "*" and not p[1]:
-                inner = [src[0], src[1][:-1]]
-                return self.root_place(inner, depth + 1)
-            if not p[1]:
-                r = self.root_place(src, depth + 1)
-                return [r[0], list(r[1]) + ["&"]]
-            return p
-        elif rv[0] == "cast":
-            src = op_place(rv[2])
-        if src is None:
-            return p
-        r = self.root_place(src, depth + 1)
-        return [r[0], list(r[1]) + list(p[1])]
+                return [r[0], self._join([e for e in r[1] if e != "&"] + ["deref()", "&"], projs)]
+            return [l, projs]
+        k = rv[0]
+        if k == "use" or k == "cast":
+            src = op_place(rv[1] if k == "use" else rv[2])
+            if src is None:
+                return [l, projs]
+            r = self.root_place(src, depth + 1)
+            return [r[0], self._join(r[1], projs)]
+        if k == "ref" or k == "raw":
+            r = self.root_place(rv[2], depth + 1)
+            return [r[0], self._join(list(r[1]) + ["&"], projs)]
+        return [l, projs]
 
     def root_local(self, op_or_place):
         p = op_or_place
@@ -398,4 +400,4 @@ def is_from_residual(callee):
 
 
 def is_try_branch(callee):
-    return callee.endswith("as std::ops::Try>::branch")
+    return callee.endswith("as core::ops::try_trait::Try>::branch")
